@@ -132,6 +132,17 @@ def _hop(name):
                               phi=np.array([0.0, 1.0, 4.0]))
     S = calc_scat_matrix(detp, s, H.NMED, H.WL, theory=_OBJ["tm"]).values
     out = digest(np.ascontiguousarray(h), np.ascontiguousarray(S))
+    # the theory-level entry point that Lens and user-written wrappers call
+    # with the user's own scatterer object (no defensive copy in between);
+    # a changed signature is not a violation: the seam is then skipped
+    try:
+        pos = np.array([[np.inf, np.inf, np.inf], [0.0, 0.7, 2.0],
+                        [0.0, 1.0, 4.0]])
+        raw = np.asarray(_OBJ["tm"].raw_scat_matrs(
+            s, pos, medium_wavevec=H.K, medium_index=H.NMED))
+        out += digest(np.ascontiguousarray(raw))
+    except TypeError:
+        out += "|raw-seam-absent"
     if repr(s) != srepr:
         out += "|scatterer-object-changed"
     return out
